@@ -45,6 +45,9 @@ def check(run):
             seq, par = out[2:].split(" ")
             if seq[4:] != par[4:]:
                 bad = ("different-results", {"sequential": seq[:600], "concurrent": par[:600]})
+            elif "stale:BAD" in out:
+                bad = ("foreign-descriptor-touched", {"what": "after a failed rotation an exporter wrote to or closed a descriptor number it no longer "
+                                                               "owns; the number had been re-used by an independent output", "output": out[:600]})
         if bad and bad[0] not in seen:
             seen.add(bad[0])
             run.spec_fail.append(("threads:" + bad[0], line, bad[1]))
